@@ -27,6 +27,10 @@ TplC17lt == LongTpls({"L65534", "L65535", "L65536", "L65537", "L65538", "L131072
 \* C17, both tiers: request contexts that end before or while the endpoints are tried
 TplC17x == {P("ok", "", <<"word">>), P("ok", "", <<"none", "spaces">>), P("rpc", "any", <<>>), P("deadline", "", <<>>)}
 CutCtxs == {"cancelled", "expired", "expiredwarm", "cancelmid"}
+\* C17, both tiers: request content classes
+TplC17r == {P("ok", "", <<"word">>), P("rpc", "any", <<>>)}
+FullReq == {"full"}
+AllReqs == {"full", "noext", "emptyext", "customext", "nocrit", "emptycrit", "noprins", "oneprin", "zeroval", "maxval", "nokeymeta", "bare"}
 NoBundle == {[cas |-> {}, lay |-> "none"]}
 
 \* C18: server identity x protocol range x client-certificate policy
@@ -46,6 +50,11 @@ AuthPols == {"ignore", "request", "requireany", "verifyifgiven", "require"}
 Hints == {"own", "empty", "other"}
 TplC18p == {TH("ca1", v, p, h, "ok", "", <<"word">>) : v \in {"tls13", "tls12"}, p \in AuthPols, h \in Hints}
            \cup {T("foreign", "tls13", "request", "ok", "", <<"word">>)}
+\* C18, both tiers: two different CA certificates with one subject name (ca1, ca1b), configured together or alone
+TplC18s == {T("ca1", "tls13", "request", "ok", "", <<"word">>), T("ca1b", "tls13", "request", "ok", "", <<"word">>),
+            T("foreign", "tls13", "ignore", "ok", "", <<"word">>)}
+SameSubjectBundles == {[cas |-> {"ca1", "ca1b"}, lay |-> l] : l \in {"two", "tworev", "concat", "concatrev"}}
+                      \cup {[cas |-> {"ca1"}, lay |-> "one"], [cas |-> {"ca1b"}, lay |-> "one"]}
 Ca1Only == {[cas |-> {"ca1"}, lay |-> "one"]}
 Ample == {"ample"}
 One == {1}
@@ -70,5 +79,5 @@ BoTable == [base |-> {"zero", "small", "max"}, mult |-> {"1", "1.5", "3", "1e308
 BoModel == [cfgs |-> BoCfgs, attempts |-> BoAttempts]
 ASSUME PrintT(<<"BOT", ToJson([classes |-> BoTable, model |-> BoModel])>>)
 
-EmitCase == (pc = "new" /\ last.op = "init") => PrintT(<<"CASE", ToJson([eps |-> eps, bundle |-> bundle, ctx |-> env.ctx, tries |-> env.tries, hist |-> env.hist])>>)
+EmitCase == (pc = "new" /\ last.op = "init") => PrintT(<<"CASE", ToJson([eps |-> eps, bundle |-> bundle, ctx |-> env.ctx, req |-> env.req, tries |-> env.tries, hist |-> env.hist])>>)
 =============================================================================
